@@ -2,7 +2,7 @@
 # usage: tools/seed_eval.sh <ID> [checks...]   evaluates the sub-agent change in /tmp/wt-<ID>
 export GOFLAGS=-mod=mod GOPROXY=off GOSUMDB=off GOTOOLCHAIN=local
 ID="$1"; shift
-WT=/tmp/wt-$ID
+WT=${WT_PREFIX:-/tmp/wt}-$ID
 P=$WT/mutation/patch.diff
 [ -f "$P" ] || { echo "no patch"; exit 9; }
 PK="./p9/ ./vecnet/ ./linux/ ./fsimpl/localfs/ ./fsimpl/qids/ ./fsimpl/staticfs/ ./fsimpl/composefs/"
